@@ -24,7 +24,7 @@ def r22a(ctx, P):
                   "inside the segment loops and compared with the scan cap): each increment is controlled by the false arm of a "
                   "HashMap::contains_key test on the candidate map (a new distinct term), and both successors of every test on the "
                   "counter stay inside the outermost loop (skip this key, never stop scanning the remaining segments)")
-    f = P.fn(COLLECT)
+    f = P.inlined(COLLECT, depth=2)        # per-mode scan functions and the cap / record helpers are read in place
     if not ctx.anchor(rid, f, "reader::collect_completion_candidates"):
         return
     ctx.saw(f)
@@ -32,18 +32,42 @@ def r22a(ctx, P):
     loops = natural_loops(f)
     defs = f.defs()
     counters = {}
+    sla = Slice(f, through_all_calls=True)
+
+    def root_var(l):
+        """the variable a temporary / a spliced helper's parameter stands for (through copies and `&mut x` handed to a helper)"""
+        seen = set()
+        while l is not None and l not in seen:
+            seen.add(l)
+            d = [x for x in defs.get(l, []) if x["k"] == "assign" and not x.get("partial")]
+            transparent = not f.locals[l].get("name") or f.locals[l].get("inlined")
+            if len(d) == 1 and transparent and d[0]["rv"]["k"] in ("use", "cast") and op_local(d[0]["rv"]["a"]) is not None and \
+                    all(e == "deref" for e in op_place(d[0]["rv"]["a"])["p"]):
+                l = op_local(d[0]["rv"]["a"])
+            elif len(d) == 1 and transparent and d[0]["rv"]["k"] == "ref" and all(e == "deref" for e in d[0]["rv"]["place"]["p"]):
+                l = d[0]["rv"]["place"]["l"]
+            else:
+                break
+        return l
+
+    def compared_with_cap(c):
+        """the counter is compared with the scan cap (a value derived from the `size` parameter / a clamp)"""
+        for b_, i_, st_ in f.stmts():
+            if st_["k"] == "assign" and st_["rv"]["k"] == "binop" and st_["rv"]["op"] in ("Ge", "Gt", "Le", "Lt"):
+                for x, y in ((st_["rv"]["a"], st_["rv"]["b"]), (st_["rv"]["b"], st_["rv"]["a"])):
+                    if op_local(x) is not None and root_var(op_local(x)) == c:
+                        srcs = sla.sources(y)
+                        if any(z[0] == "arg" and f.locals[z[1]].get("name") == "size" for z in srcs) or \
+                                any(z[0] == "call" and callee_of(z[2]).endswith("::clamp") for z in srcs):
+                            return True
+        return False
     for b, i, st in f.stmts():
         if st["k"] == "assign" and st["rv"]["k"] == "binop" and st["rv"]["op"] in ("Add", "AddWithOverflow"):
             a, c = st["rv"]["a"], st["rv"]["b"]
             if (op_const(c) or {}).get("int") == 1 and op_local(a) is not None:
                 # find the variable this temp is written back to
-                root = op_local(a)
-                seen = set()
-                while root is not None and root not in seen and not f.locals[root].get("name"):
-                    seen.add(root)
-                    d = [x for x in defs.get(root, []) if x["k"] == "assign" and x["rv"]["k"] in ("use", "cast")]
-                    root = op_local(d[0]["rv"]["a"]) if len(d) == 1 else None
-                if root is not None and "usize" in f.local_ty(root) and any(b in body for h, body in loops):
+                root = root_var(op_local(a))
+                if root is not None and "usize" in f.local_ty(root) and any(b in body for h, body in loops) and compared_with_cap(root):
                     counters.setdefault(root, []).append(b)
     ctx.floor(rid, len(counters), 1, "scan counters in collect_completion_candidates")
     for c, inc_blocks in sorted(counters.items()):
@@ -82,7 +106,7 @@ def r22a(ctx, P):
             t = f.blocks[b]["term"]
             if t["k"] != "switch" or outer is None or b not in outer:
                 continue
-            if c not in sl.locals(t["on"]):
+            if c not in sl.locals(t["on"]) and not any(root_var(l_) == c for l_ in sl.locals(t["on"])):
                 continue
             for s_ in f.succ(b):
                 # follow straight-line blocks
@@ -105,7 +129,7 @@ def r22b(ctx, P):
                   "input's frequency (saturating_add / +): frequencies are added, never overwritten or maximised")
     n = 0
     for path in (COLLECT, SUGGEST):
-        f = P.fn(path)
+        f = P.inlined(path, depth=2, small=(None if path == COLLECT else 80))
         if f is None:
             continue
         ctx.saw(f)
@@ -114,9 +138,36 @@ def r22b(ctx, P):
             if st["k"] == "assign" and place_fields(st["dst"])[-1:] == ["doc_freq"] and "SuggestCandidate" in str(st["dst"]["p"]) + f.local_ty(st["dst"]["l"]):
                 n += 1
                 srcs = sl.sources(st["rv"]["a"]) if st["rv"]["k"] in ("use", "cast") else []
-                adds = any(x[0] == "call" and callee_of(x[2]).endswith(("::saturating_add", "::wrapping_add", "::checked_add")) for x in srcs) or \
-                    any(x[0] == "binop" and x[1] in ("Add", "AddWithOverflow") for x in srcs)
-                reads_old = any(x[0] == "field" and "doc_freq" in x[2] for x in srcs)
+                # the operation that PRODUCES the stored value (behind plain copies) is an addition one of whose operands is the old value
+                adds = reads_old = False
+                l_ = op_local(st["rv"]["a"]) if st["rv"]["k"] in ("use", "cast") else None
+                seen_ = set()
+                while l_ is not None and l_ not in seen_:
+                    seen_.add(l_)
+                    dd = [d for d in f.defs().get(l_, []) if not d.get("partial")]
+                    if len(dd) != 1:
+                        break
+                    d = dd[0]
+                    if d["k"] == "call":
+                        if callee_of(d["t"]).endswith(("::saturating_add", "::wrapping_add", "::checked_add")):
+                            adds = True
+                            reads_old = any("doc_freq" in Slice(f).fields(a_) for a_ in d["t"]["args"])
+                        elif callee_of(d["t"]).endswith(("::unwrap_or", "::unwrap", "::unwrap_or_default", "::expect")) and d["t"]["args"]:
+                            l_ = op_local(d["t"]["args"][0])
+                            continue
+                        break
+                    rv_ = d["rv"]
+                    if rv_["k"] == "binop":
+                        if rv_["op"] in ("Add", "AddWithOverflow"):
+                            adds = True
+                            reads_old = "doc_freq" in (Slice(f).fields(rv_["a"]) | Slice(f).fields(rv_["b"]))
+                        break
+                    if rv_["k"] in ("use", "cast") and op_local(rv_["a"]) is not None:
+                        pl_ = op_place(rv_["a"])
+                        # `(sum, overflow).0` of a checked addition
+                        l_ = pl_["l"]
+                        continue
+                    break
                 ctx.ob(rid, "%s:%s:doc_freq-accumulates" % (rid, f.short.rsplit("::", 1)[-1]), adds and reads_old,
                        "doc_freq += frequency" if adds and reads_old else
                        "doc_freq is written at %s without adding to its previous value: frequencies of other segments / inputs are lost"
@@ -144,10 +195,18 @@ def r22c(ctx, P):
            "options are cut to `size` after they are sorted" if after and size_ok else
            "completion_suggest does not truncate to `size` after sorting", Site(f, tb).loc())
     g = None
+    base = 2            # a closure's parameters follow its environment; a named comparator function's start at 1
     for a in st["args"][1:]:
         for x in sl.sources(a):
             if x[0] == "agg" and x[3].get("closure"):
                 g = P.fn(x[3]["closure"])
+            if x[0] == "const" and x[1].get("fn") and P.fn(x[1].get("resolved", x[1]["fn"])) is not None:
+                g = P.fn(x[1].get("resolved", x[1]["fn"]))
+                base = 1
+        c_ = op_const(a)
+        if g is None and c_ and c_.get("fn") and P.fn(c_.get("resolved", c_["fn"])) is not None:
+            g = P.fn(c_.get("resolved", c_["fn"]))
+            base = 1
     if not ctx.anchor(rid, g, "sort comparator closure"):
         return
     ctx.saw(g)
@@ -173,10 +232,10 @@ def r22c(ctx, P):
             s0, s1 = side(h, t["args"][0]), side(h, t["args"][1])
             # in g: arg 2 = a, arg 3 = b ; in the nested then_with closure they are upvars a / b
             def is_a(s):
-                return 2 in s or any("upvar:a" in str(x) or "upvar:*a" in str(x) for x in s)
+                return base in s or any("upvar:a" in str(x) or "upvar:*a" in str(x) for x in s)
 
             def is_b(s):
-                return 3 in s or any("upvar:b" in str(x) or "upvar:*b" in str(x) for x in s)
+                return (base + 1) in s or any("upvar:b" in str(x) or "upvar:*b" in str(x) for x in s)
             if "score" in f0 and "score" in f1:
                 score_ok = is_b(s0) and is_a(s1) and not is_a(s0)
             if "text" in f0 and "text" in f1:
